@@ -118,6 +118,12 @@ impl<'a> Sess<'a> {
                 if let Some(p) = &self.paths[m.url] { std::fs::write(p, text_for(lang, &self.client[m.url])).unwrap(); }
                 self.ls.did_save(&url)
             }
+            // the file behind the document holds something else than the editor's buffer (written with a byte order
+            // mark, or by another program) when the save notification arrives
+            "tampersave" => {
+                if let Some(p) = &self.paths[m.url] { std::fs::write(p, format!("\u{feff}{}", text_for(lang, "D"))).unwrap(); }
+                self.ls.did_save(&url)
+            }
             "close" => self.ls.did_close(&url),
             "adduser" => self.ls.exec("HarperAddToUserDict", json!(["harperish", url])),
             "addfile" => self.ls.exec("HarperAddToFileDict", json!(["harperish", url])),
@@ -265,6 +271,11 @@ pub fn main(a: &Args) {
                 run(&[m("open", u, "A"), m("silentcfg", u, c), m("confignull", u, "")], &[], &[], &[], &mut out);
                 run(&[m("open", u, "A"), m("open", (u + 1) % 2, "C"), m("silentcfg", u, c), m("confignull", u, ""), m("change", u, "B"), m("silentcfg", u, "c0"), m("confignull", u, "")], &[], &[], &[], &mut out);
             }
+        }
+        // (1i) a save notification while the file differs from the buffer
+        for u in [0usize, 1, 3] {
+            run(&[m("open", u, "A"), m("tampersave", u, "")], &[], &[], &[], &mut out);
+            run(&[m("open", u, "A"), m("change", u, "B"), m("tampersave", u, ""), m("addfile", u, "")], &[], &[], &[], &mut out);
         }
         // (1h) the directory of the documents is deleted: every document in it ends with empty diagnostics, the untitled one keeps its own
         for kind in ["deletedir", "deletedir/"] {
